@@ -215,6 +215,11 @@ class SolveProperty(Property):
             spec, labels = gen.spec_of(rng, n, atts)
             # a few solver configurations per framework, all of them over the run
             chosen = combos if (n <= 2 and tier != "quick") else rng.sample(combos, min(len(combos), 3 if tier == "quick" else 5))
+            if n <= 9 and rng.random() < 0.25:
+                # the convenience constructors `XSolver::new(af)` (default SAT solver and encoder): answers judged only
+                (s0, _e0, t0) = rng.choice(combos)
+                if s0 != "GR":
+                    chosen = chosen + [(s0, "new", t0)]
             for (sem, enc, task) in chosen:
                 if big and sem in ("SST", "STG", "ID", "PR"):
                     continue
@@ -270,7 +275,7 @@ class SolveProperty(Property):
                 reason = reason[4:]
             fs.append(Finding("input", case_line, reason, self.signature(case_line, impl, reason.split(":")[0]),
                               {"impl": [l for l in impl if not l.startswith("S ")][:12]}))
-        if not fs and self.check_trace:
+        if not fs and self.check_trace and " enc=new" not in case_line:
             d = trace_diff(impl, model)
             if d is not None:
                 p = kv(case_line)
